@@ -672,6 +672,87 @@ func harnesses(r *fw.Run) []fw.HarnessSpec {
 		hs = append(hs, fw.HarnessSpec{Harness: enum.Harness{Name: name, Bound: bound, Run: f}})
 	}
 
+	// wallet v5 requests come in two signed layouts: the external one (checked below through the reference parser) and
+	// the one carried inside an internal message. Both are built by CreateMessageBody; the library's decoders must give
+	// back exactly the requested messages from either.
+	add("v5-signed-internal-and-external", 0, func(c *enum.Ctx) {
+		ver := []wallet.Version{wallet.V5Beta, wallet.V5R1}[c.ChooseFree(2)]
+		mt := []wallet.V5MsgType{wallet.V5MsgTypeSignedInternal, wallet.V5MsgTypeSignedExternal}[c.ChooseFree(2)]
+		n := []int{1, 2, 3, 10}[c.ChooseFree(4)]
+		c.Case([]byte(fmt.Sprintf("v5layouts/%d/%v/%d", ver, mt, n)), true)
+		c.Label("%s, message type %v, %d messages", ver.ToString(), mt, n)
+		c.Try("panic:v5-layouts", func() {
+			w, err := wallet.New(key(1), ver, &chain{})
+			if err != nil {
+				c.Fail("wallet.New", "%v", err)
+				return
+			}
+			var msgs []wallet.Sendable
+			for i := 0; i < n; i++ {
+				var d ton.AccountID
+				d.Address[0], d.Address[5] = 0xD0, byte(i)
+				if i%2 == 0 {
+					msgs = append(msgs, wallet.SimpleTransfer{Amount: tlb.Grams(1000 + i), Address: d, Comment: fmt.Sprintf("m%d", i)})
+				} else {
+					msgs = append(msgs, wallet.Message{Amount: tlb.Grams(i), Address: d, Mode: uint8(i), Bounce: true})
+				}
+			}
+			want, _, ok := expectedRaw(c, msgs)
+			if !ok {
+				c.Fail("setup", "cannot convert the requests")
+				return
+			}
+			body, err := w.CreateMessageBody(wallet.MessageConfig{Seqno: 3, ValidUntil: time.Unix(1_700_000_000, 0), V5MsgType: mt}, msgs...)
+			if err != nil {
+				c.Fail("CreateMessageBody-error:"+ver.ToString(), "%v", err)
+				return
+			}
+			// the carrier: an internal message to the wallet (signed-internal) or an external one (signed-external)
+			carrier := tb.NewCell()
+			if mt == wallet.V5MsgTypeSignedInternal {
+				im, _, err := wallet.Message{Amount: 1, Address: w.GetAddress(), Body: body}.ToInternal()
+				if err == nil {
+					err = tlb.Marshal(carrier, im)
+				}
+				if err != nil {
+					c.Fail("setup", "%v", err)
+					return
+				}
+			} else {
+				em, err := ton.CreateExternalMessage(w.GetAddress(), body, nil, tlb.VarUInteger16{})
+				if err == nil {
+					err = tlb.Marshal(carrier, em)
+				}
+				if err != nil {
+					c.Fail("setup", "%v", err)
+					return
+				}
+			}
+			raws, err := wallet.ExtractRawMessages(ver, carrier)
+			if err != nil {
+				c.Fail("ExtractRawMessages-error:v5-layouts:"+ver.ToString(), "%v", err)
+				return
+			}
+			if len(raws) != len(want) {
+				c.Fail("ExtractRawMessages-count:v5-layouts:"+ver.ToString(), "message type %v: %d messages extracted, %d requested", mt, len(raws), len(want))
+				return
+			}
+			for i := range raws {
+				rc, err := conv.FromTongo(raws[i].Message)
+				if err != nil || rc.ReprHash() != want[i].hash || raws[i].Mode != want[i].mode {
+					c.Fail("ExtractRawMessages-content:v5-layouts:"+ver.ToString(), "message type %v: extracted message %d differs from the requested one", mt, i)
+					return
+				}
+			}
+			if ver == wallet.V5R1 {
+				body.ResetCounters()
+				if err := wallet.MessageV5VerifySignature(*body, key(1).Public().(ed25519.PublicKey)); err != nil {
+					c.Fail("VerifySignature-rejects:v5-layouts", "message type %v: %v", mt, err)
+				}
+			}
+		})
+	})
+
 	add("build-and-parse", r.Pick(2, 3), func(c *enum.Ctx) {
 		s := buildSpec(c, seed)
 		path := c.ChooseFree(2)          // 0: CreateMessageBody + envelope, 1: RawSendV2 through the blockchain interface
